@@ -25,6 +25,7 @@ def stop_case(draw):
           "stop_at": stop_at, "timed_schedule": timed,
           "posts_before": draw(st.integers(0, 3)), "posts_with_stop": draw(st.integers(0, 2)),
           "slow_step": 0.0 if never else draw(st.sampled_from([0.0, 0.0, 0.3, 1.0, 1.5, 3.0, 12.0])),
+          "arm_early": draw(st.integers(0, 3)) == 0,   # the timed posts are made before start_at
           "slow_arms": draw(st.booleans()),     # the slow handler ends by arming a timed source
           "crash": (not never) and draw(st.integers(0, 4)) == 0,  # a handler raises: the thread is gone before stop() is called
           "same_name": draw(st.integers(0, 3)) == 0,  # the other object carries the same name
@@ -42,7 +43,7 @@ class C12(Prop):
   thorough_examples = 4000
   rule = ("Generated scenarios under the deterministic scheduler and virtual clock: an ActiveObject "
           "with 0-3 timed sources (periods 0.25-1.0, endless or 4 shots, over three signal names), a second ActiveObject "
-          "subscribed to a signal, plain posts queued before the stop, one case in eight an object that armed its timers but was never started, optionally live spy/trace output switched on for the object that is stopped, optionally a handler that raises (so the "
+          "subscribed to a signal, plain posts queued before the stop, one case in eight an object that armed its timers but was never started, one in four arming them before start_at, optionally live spy/trace output switched on for the object that is stopped, optionally a handler that raises (so the "
           "object's thread has already ended when stop() is called from outside), optionally a handler "
           "that takes 0.3-12 s of virtual time and is running when stop() is called; stop() is called at a "
           "generated virtual instant (a multiple of 0.25, so it often coincides with a timer firing "
@@ -113,13 +114,19 @@ class C12(Prop):
       chart._vf_key, other._vf_key = "ao1", "ao2"
       other.subscribe(Event(signal=signals["VC"]))
       other.start_at(fn2)
+      def arm():
+        for k, src in enumerate(case["sources"]):
+          getattr(chart, "post_" + src["kind"])(Event(signal=signals[src.get("sig", "VB")], payload=k), period=src["period"],
+                                                times=src["times"], deferred=src["deferred"])
+      early = bool(case.get("arm_early")) and not case.get("never_started")
+      if early:
+        arm()                    # the usual "set everything up, then start" order
       if not case.get("never_started"):
         chart.start_at(fn)
       s.quiesce()
       t0 = s.now
-      for k, src in enumerate(case["sources"]):
-        getattr(chart, "post_" + src["kind"])(Event(signal=signals[src.get("sig", "VB")], payload=k), period=src["period"],
-                                              times=src["times"], deferred=src["deferred"])
+      if not early:
+        arm()
       s.wake_at(t0 + case["stop_at"])
       if case.get("crash") and case["stop_from"] == "outside":
         # the object's thread ends on its own (a handler raised); stop() is still what cleans up
